@@ -22,7 +22,13 @@ RULE = ("random command trees (vp/gen_cmd.py: depth <= 2(3), every setting toggl
         "(python mirror of the class, a subset) x lines aimed at the resume logic: names down to a level with a short "
         "flag-subcommand, a cluster -<flags>*S<letters incl. the child's shorts, S again, =, digits, unknown letters, non-UTF-8 "
         "bytes>, then further clusters / names / boundary tokens; non-trivial = a cluster carries a flag-subcommand letter "
-        "that is not its last byte (keep_state); a panic on this stream is a violation even with the message of the recorded finding.")
+        "that is not its last byte (keep_state); a panic on this stream is a violation even with the message of the recorded finding.  "
+        "Stream parse-single-clusters (round 5): definitions with short flag-subcommands, mostly OUTSIDE flag_sub_class (nested, hyphen "
+        "positionals), x lines of the class of C01_no_panic_single_clusters (no token is a short cluster of more than one character): "
+        "a walk that selects every level by its own token, single-letter flags, values, boundary tokens, and generic lines with every "
+        "multi-character cluster split; non-trivial = definition outside the class mirror and a level selected by `-S`; a panic is a "
+        "violation as on parse-flagsub-class.  Pseudo-stream panic-site-classes: no cases; carries the coverage class of every source "
+        "panic site into the evidence.")
 TRUSTED = [
     "Coq 8.16.1 kernel (coqc); no native_compute; theorems C01_* are 'Closed under the global context'",
     "extraction: ExtrOcamlBasic only, no Extract Constant; OCaml driver ocaml/parse_driver.ml + common_parse/{spec,show}.ml",
@@ -85,7 +91,9 @@ LEVEL_TEXT = ("Machine-checked theorems (Coq 8.16, closed under the global conte
               "C01_sites_dead_any_valid); (C) every one of the 48 source sites has a coverage class pinned by name "
               "(C01_sites_classified: 7 proved for every definition, 30 dead for every valid definition, 1 dead in the class only, "
               "10 reasoned), printed into the evidence; three formerly prose rows are theorems (external-subcommand guard, ids of "
-              "missing_required_error).")
+              "missing_required_error); (D) the line side: for every valid definition a line without multi-character short clusters "
+              "never panics (C01_no_panic_single_clusters) -- a panic needs a definition outside flag_sub_class AND such a cluster, and "
+              "is then that one assertion.")
 LEVEL_NOTE = ("Trusted: Coq kernel, extraction, OCaml driver, Rust harness, generators. Recorded finding: nested short "
               "flag-subcommands whose intermediate flag consumes a number of indices other than one make the "
               "flag_subcmd_skip debug assertion fail (debug builds panic, release builds reject the line); round 2 found two "
@@ -346,6 +354,114 @@ def nontrivial_flagsub(case, impl):
     return False
 
 
+# ---------------------------------------------------------------- stream parse-single-clusters (round 5)
+def multi_cluster(t):
+    """python mirror of FsLine.multi_cluster: `-` + one character + at least one more byte"""
+    if len(t) < 2 or t[:1] != b"-" or t[:2] == b"--":
+        return False
+    r = t[1:]
+    for n in (1, 2, 3, 4):
+        try:
+            if len(r[:n].decode("utf-8")) == 1 and len(r[:n]) == n:
+                return len(r) > n
+        except UnicodeDecodeError:
+            continue
+    return False
+
+
+def split_cluster(t):
+    """`-abc` -> `-a -b -c`; a tail that is not UTF-8 stays one token (`-\xff..` is not a cluster of characters)"""
+    out = []
+    r = t[1:]
+    while r:
+        for n in (1, 2, 3, 4):
+            try:
+                if len(r[:n].decode("utf-8")) == 1 and len(r[:n]) == n:
+                    out.append(b"-" + r[:n])
+                    r = r[n:]
+                    break
+            except UnicodeDecodeError:
+                continue
+        else:
+            out.append(b"-" + r)
+            break
+    return out
+
+
+def single_cluster_cases(rng, n):
+    """definitions WITH short flag-subcommands -- mostly outside flag_sub_class: nested ones, hyphen / negative-number
+    positionals in re-entered levels -- x lines of the class of C01_no_panic_single_clusters (no token is a short cluster of
+    more than one character): a walk down the tree that selects every level by its own token (`-S`, a name, a long flag),
+    with single-letter flags of that level, values and boundary tokens in between, and generic rendered / mutated lines in
+    which every multi-character cluster is split into single letters."""
+    prof = gen_cmd.Profile(flag_subs=0.8, hyphen=0.35, depth=3, settings=0.2, infer=0.2, require_equals=0.2, ignore_errors=0.15,
+                           invalid=0.0)
+    out = []
+    guard = 0
+    while len(out) < n and guard < 200 * n + 1000:
+        guard += 1
+        c = gen_cmd.gen_cmd(rng, prof)
+        if not uses_short_flag_sub(c):
+            continue
+        if in_flag_sub_class(c) and rng.random() < 0.7:
+            continue
+        lines = []
+        for _ in range(5):
+            toks = []
+            cc = c
+            while True:
+                shorts = [a["short"] for a in cc["args"] if a.get("short")]
+                for _ in range(rng.choice([0, 0, 1, 1, 2])):
+                    r = rng.random()
+                    if r < 0.6 and shorts:
+                        toks.append(b"-" + rng.choice(shorts).encode())
+                    elif r < 0.8:
+                        toks.append(rng.choice(gen_cmd.VALUES))
+                    else:
+                        toks.append(rng.choice(gen_cmd.BOUNDARY))
+                if not cc["subs"] or rng.random() < 0.2:
+                    break
+                withflag = [s for s in cc["subs"] if s.get("short_flag")]
+                s_ = rng.choice(withflag) if withflag and rng.random() < 0.8 else rng.choice(cc["subs"])
+                if s_.get("short_flag") and rng.random() < 0.85:
+                    toks.append(b"-" + s_["short_flag"].encode())
+                elif s_.get("long_flag") and rng.random() < 0.5:
+                    toks.append(b"--" + s_["long_flag"])
+                else:
+                    toks.append(s_["name"])
+                cc = s_
+            lines.append(toks)
+        for _ in range(3):
+            a = gen_cmd.gen_argv(rng, c, p_mutate=0.5, safe_p=0.4)
+            lines.append(a if "no_binary_name" in c["settings"] else a[1:])
+        for toks in lines:
+            flat = []
+            for t in toks:
+                flat += split_cluster(t) if multi_cluster(t) else [t]
+            assert not any(multi_cluster(t) for t in flat)
+            out.append(gen_cmd.case_sx(c, flat if "no_binary_name" in c["settings"] else [b"prog"] + flat))
+    return out[:n]
+
+
+def nontrivial_single(case, impl):
+    """the definition is outside (the python mirror of) flag_sub_class and the line selects a level by a short
+    flag-subcommand letter"""
+    if not nontrivial(case, impl):
+        return False
+    cmd, argv = decode_case(case)
+    if in_flag_sub_class(cmd):
+        return False
+    letters = set()
+
+    def walk(cc):
+        for s in cc["subs"]:
+            if s.get("short_flag"):
+                letters.add(b"-" + (s["short_flag"].encode() if isinstance(s["short_flag"], str) else s["short_flag"]))
+            walk(s)
+    walk(cmd)
+    return any(t in letters for t in argv[1:])
+
+
 def describe(cases, tag):
     feats = collections.Counter()
     lens = collections.Counter()
@@ -473,16 +589,22 @@ def streams(tier, rng):
     fsc = flagsub_cases(rng, 20000 if big else 2000)
     flagsub = Stream("parse-flagsub-class", fsc, oracle=oracle, area="parse", project=project,
                      nontrivial=nontrivial_flagsub, describe=describe(fsc, "parse-flagsub-class"))
+    # round 5: the class of C01_no_panic_single_clusters (any definition, no multi-character short cluster on the line)
+    # against the real crate; as on parse-flagsub-class the message of the recorded finding is NOT accepted here
+    scc = single_cluster_cases(rng, 20000 if big else 2000)
+    single = Stream("parse-single-clusters", scc, oracle=oracle, area="parse", project=project,
+                    nontrivial=nontrivial_single, describe=describe(scc, "parse-single-clusters"))
     # round 5: the coverage class of every panic-shaped source site, into the evidence (no cases: the proof gate has
     # checked the lists; a site of the regenerated table without a class fails C01_sites_match / C01_sites_classified)
     sites = Stream("panic-site-classes", [], describe=publish_site_classes())
     return [mk("parse-random", rand), mk("parse-adversarial", adversarial), mk("parse-boundary", bound),
-            mk("parse-ignore-errors", ign), flagsub, errctx, sites]
+            mk("parse-ignore-errors", ign), flagsub, single, errctx, sites]
 
 
 def classify_known(stream, case, impl, failure):
-    if stream == "parse-flagsub-class":
-        return None       # definitions of the class of C01_no_panic_flag_subs: the recorded finding cannot occur there
+    if stream in ("parse-flagsub-class", "parse-single-clusters"):
+        return None       # definitions resp. lines of the classes of C01_no_panic_flag_subs / C01_no_panic_single_clusters:
+                          # the recorded finding cannot occur there
     if impl and impl.startswith("PANIC") and KNOWN_SKIP_MSG in impl:
         return "C01-flag-subcmd-skip"
     return None
